@@ -94,6 +94,7 @@ type hOp struct {
 	kind byte // 'g' get, 'p' put, 'd' del, 'f' fail, 'P' put of a value too large for the key's size suffix
 	key  int
 	val  uint64
+	empty bool // 'p' of the empty byte string
 }
 
 var errScripted = errors.New("scripted failure")
@@ -128,7 +129,11 @@ func (a *scriptAction) Bytes() []byte {
 	b = append(b, y)
 	b = binary.BigEndian.AppendUint16(b, uint16(len(a.Ops)))
 	for _, o := range a.Ops {
-		b = append(b, o.kind, byte(o.key))
+		k := byte(o.key)
+		if o.empty {
+			k |= 0x80
+		}
+		b = append(b, o.kind, k)
 		b = binary.BigEndian.AppendUint64(b, o.val)
 	}
 	return b
@@ -157,7 +162,7 @@ func unmarshalScriptAction(b []byte) (chain.Action, error) {
 		return nil, bad
 	}
 	for i := 0; i < m; i++ {
-		a.Ops = append(a.Ops, hOp{kind: b[p], key: int(b[p+1]), val: binary.BigEndian.Uint64(b[p+2 : p+10])})
+		a.Ops = append(a.Ops, hOp{kind: b[p], key: int(b[p+1] & 0x7f), empty: b[p+1]&0x80 != 0, val: binary.BigEndian.Uint64(b[p+2 : p+10])})
 		p += 10
 	}
 	return a, nil
@@ -226,7 +231,11 @@ func (a *scriptAction) Execute(ctx context.Context, _ chain.Rules, mu state.Muta
 				out = append(out, v...)
 			}
 		case 'p':
-			if err := mu.Insert(ctx, hKey(o.key), hVal(o.val)); err != nil {
+			v := hVal(o.val)
+			if o.empty {
+				v = []byte{}
+			}
+			if err := mu.Insert(ctx, hKey(o.key), v); err != nil {
 				return nil, err
 			}
 		case 'd':
@@ -257,7 +266,9 @@ func showActionOutput(out []byte) string {
 		}
 		n := int(out[p+1])
 		v := out[p+2 : p+2+n]
-		if n == 8 {
+		if n == 0 {
+			parts = append(parts, "E")
+		} else if n == 8 {
 			parts = append(parts, strconv.FormatUint(binary.BigEndian.Uint64(v), 10))
 		} else {
 			parts = append(parts, "x"+verifh.Hex(v))
@@ -398,6 +409,10 @@ func parseProgField(s string) ([][]hOp, error) {
 						return nil, errors.New("bad op")
 					}
 					k, e1 := strconv.Atoi(a[0])
+					if e1 == nil && a[1] == "E" && k >= 0 && k < hNumActionKeys {
+						ops = append(ops, hOp{kind: 'p', key: k, empty: true})
+						continue
+					}
 					v, e2 := strconv.ParseUint(a[1], 10, 64)
 					if e1 != nil || e2 != nil || k < 0 || k >= hNumKeys {
 						return nil, errors.New("bad op")
@@ -565,6 +580,11 @@ func newParentDB(vals map[int]uint64, height uint64, ts int64) (merkledb.MerkleD
 	return newParentDBFee(vals, height, ts, []byte{})
 }
 
+// hEmptyMark marks, in a parsed parent line, a key whose value is the empty byte string (only
+// action keys; an 8-byte value can never equal it because real values are printed in decimal
+// and this one as `E`).
+const hEmptyMark = ^uint64(0) - 12345
+
 func newParentDBFee(vals map[int]uint64, height uint64, ts int64, feeRaw []byte) (merkledb.MerkleDB, error) {
 	db, err := merkledb.New(context.Background(), memdb.New(), merkledb.Config{BranchFactor: merkledb.BranchFactor16, Tracer: trace.Noop})
 	if err != nil {
@@ -575,7 +595,11 @@ func newParentDBFee(vals map[int]uint64, height uint64, ts int64, feeRaw []byte)
 		return nil, err
 	}
 	for k, v := range vals {
-		if err := db.Put(hKey(k), hVal(v)); err != nil {
+		b := hVal(v)
+		if v == hEmptyMark && k < hNumActionKeys {
+			b = []byte{}
+		}
+		if err := db.Put(hKey(k), b); err != nil {
 			return nil, err
 		}
 	}
@@ -590,8 +614,12 @@ func parseParentLine(f []string) (map[int]uint64, error) {
 			return nil, errors.New("bad parent")
 		}
 		k, e1 := strconv.Atoi(a[0])
+		if e1 == nil && a[1] == "E" && k >= 0 && k < hNumActionKeys {
+			vals[k] = hEmptyMark
+			continue
+		}
 		v, e2 := strconv.ParseUint(a[1], 10, 64)
-		if e1 != nil || e2 != nil || k < 0 || k >= hNumKeys {
+		if e1 != nil || e2 != nil || k < 0 || k >= hNumKeys || v == hEmptyMark {
 			return nil, errors.New("bad parent")
 		}
 		vals[k] = v
@@ -609,6 +637,8 @@ func showPost(ctx context.Context, im state.Immutable) string {
 			parts[i] = fmt.Sprintf("%d:_", i)
 		case err != nil:
 			parts[i] = fmt.Sprintf("%d:!%v", i, err)
+		case len(v) == 0:
+			parts[i] = fmt.Sprintf("%d:E", i)
 		case len(v) == 8:
 			parts[i] = fmt.Sprintf("%d:%d", i, binary.BigEndian.Uint64(v))
 		default:
@@ -716,6 +746,9 @@ func genTx(rng *verifh.RNG, hot []int, failPct int) *hGenTx {
 				v := uint64(rng.Intn(4))
 				if k >= hNumActionKeys {
 					v = 1_000_000_000 + uint64(rng.Intn(3))
+				} else if rng.Chance(8) {
+					ops = append(ops, fmt.Sprintf("p%d=E", k))
+					continue
 				}
 				ops = append(ops, fmt.Sprintf("p%d=%d", k, v))
 			default:
@@ -749,7 +782,11 @@ func genParent(rng *verifh.RNG, poor bool) string {
 	var parts []string
 	for k := 0; k < hNumActionKeys; k++ {
 		if rng.Chance(60) {
-			parts = append(parts, fmt.Sprintf("%d=%d", k, rng.Intn(4)))
+			if rng.Chance(15) {
+				parts = append(parts, fmt.Sprintf("%d=E", k)) // the key exists, its value is the empty byte string
+			} else {
+				parts = append(parts, fmt.Sprintf("%d=%d", k, rng.Intn(4)))
+			}
 		}
 	}
 	for s := 0; s < hNumSponsors; s++ {
@@ -777,9 +814,16 @@ func genParent(rng *verifh.RNG, poor bool) string {
 // tstate / executor / fetcher / fee manager, so a defect there cannot cancel out.
 func plainSequential(parent map[int]uint64, specs []hTxSpec, units []fees.Dimensions, prices, maxUnits fees.Dimensions) string {
 	const max64 = ^uint64(0)
+	// an empty byte string is the marker value hEmptyMark (never a sponsor balance)
 	st := map[int]uint64{}
 	for k, v := range parent {
 		st[k] = v
+	}
+	show := func(v uint64) string {
+		if v == hEmptyMark {
+			return "E"
+		}
+		return strconv.FormatUint(v, 10)
 	}
 	var consumed fees.Dimensions
 	var results []string
@@ -846,7 +890,7 @@ func plainSequential(parent map[int]uint64, specs []hTxSpec, units []fees.Dimens
 						break actions
 					}
 					if present {
-						cur = append(cur, strconv.FormatUint(st[o.key], 10))
+						cur = append(cur, show(st[o.key]))
 					} else {
 						cur = append(cur, "_")
 					}
@@ -856,6 +900,9 @@ func plainSequential(parent map[int]uint64, specs []hTxSpec, units []fees.Dimens
 						break actions
 					}
 					st[o.key] = o.val
+					if o.empty {
+						st[o.key] = hEmptyMark
+					}
 				case 'd':
 					if p&5 != 5 {
 						status = "fp"
@@ -892,7 +939,7 @@ func plainSequential(parent map[int]uint64, specs []hTxSpec, units []fees.Dimens
 	post := make([]string, hNumKeys)
 	for k := 0; k < hNumKeys; k++ {
 		if v, ok := st[k]; ok {
-			post[k] = fmt.Sprintf("%d:%d", k, v)
+			post[k] = fmt.Sprintf("%d:%s", k, show(v))
 		} else {
 			post[k] = fmt.Sprintf("%d:_", k)
 		}
@@ -918,9 +965,13 @@ func genRestorePair(rng *verifh.RNG, parent map[int]uint64) (*hGenTx, *hGenTx) {
 		if rng.Bool() {
 			a.acts = [][]string{{fmt.Sprintf("d%d", k)}}
 		} else {
-			a.acts = [][]string{{fmt.Sprintf("p%d=%d", k, v+1+uint64(rng.Intn(3)))}}
+			a.acts = [][]string{{fmt.Sprintf("p%d=%d", k, uint64(5+rng.Intn(3)))}}
 		}
-		b.acts = [][]string{{fmt.Sprintf("p%d=%d", k, v), fmt.Sprintf("g%d", k)}}
+		back := strconv.FormatUint(v, 10)
+		if v == hEmptyMark {
+			back = "E"
+		}
+		b.acts = [][]string{{fmt.Sprintf("p%d=%s", k, back), fmt.Sprintf("g%d", k)}}
 	} else {
 		a.acts = [][]string{{fmt.Sprintf("p%d=%d", k, rng.Intn(4))}}
 		b.acts = [][]string{{fmt.Sprintf("d%d", k), fmt.Sprintf("g%d", k)}}
@@ -929,6 +980,36 @@ func genRestorePair(rng *verifh.RNG, parent map[int]uint64) (*hGenTx, *hGenTx) {
 		b.acts = append(b.acts, []string{fmt.Sprintf("g%d", k)})
 	}
 	return a, b
+}
+
+// genFundPair: sponsor 0 (key hNumActionKeys) cannot pay in the parent state; an earlier tx of the
+// block, paid by another sponsor, creates or tops up its balance, and a later tx is sponsored by it.
+// Applied one at a time the block is fine.
+func genFundPair(rng *verifh.RNG) (*hGenTx, *hGenTx) {
+	poor := hNumActionKeys
+	payer := hNumActionKeys + 1 + rng.Intn(hNumSponsors-1)
+	a := &hGenTx{sponsor: payer, pre: "1", keys: map[int]int{poor: 7, payer: 5},
+		acts: [][]string{{fmt.Sprintf("p%d=%d", poor, 1_000_000_000+rng.Intn(1000))}}}
+	if rng.Chance(30) {
+		a.acts[0] = append([]string{fmt.Sprintf("g%d", poor)}, a.acts[0]...)
+	}
+	b := &hGenTx{sponsor: poor, pre: "1", keys: map[int]int{poor: 5}}
+	if rng.Bool() {
+		k := rng.Intn(hNumActionKeys)
+		b.keys[k] = 7
+		b.acts = [][]string{{fmt.Sprintf("g%d", k), fmt.Sprintf("p%d=%d", k, rng.Intn(4))}}
+	}
+	return a, b
+}
+
+// moveSponsor re-sponsors every tx paid by `from` to `to` (declared keys follow).
+func moveSponsor(txs []*hGenTx, from, to int) {
+	for _, g := range txs {
+		if g.sponsor == from {
+			g.sponsor = to
+			g.keys[to] |= 5
+		}
+	}
 }
 
 var _ = utils.ToID
